@@ -86,6 +86,8 @@ pub enum Event {
     CopyOver { src: String, dst: String },
     Stray { name: String, content: StrayContent },
     Rename { from: String, to: String },
+    /// the file is gone, a directory of the same name stands in its place
+    ReplaceByDir { file: String },
     // faults on the served digest list (indices modulo the current length)
     ListRename { index: usize, to: String },
     ListSwapDigests { a: usize, b: usize },
@@ -121,6 +123,7 @@ impl Event {
             Event::CopyOver { .. } => "copy_over",
             Event::Stray { .. } => "stray_file",
             Event::Rename { .. } => "rename",
+            Event::ReplaceByDir { .. } => "file_replaced_by_directory",
             Event::ListRename { .. } => "list_entry_renamed",
             Event::ListSwapDigests { .. } => "list_digests_swapped",
             Event::ListDrop { .. } => "list_entry_dropped",
@@ -145,6 +148,9 @@ impl Event {
 // ---------------------------------------------------------------------------------------------
 
 type Dir = BTreeMap<String, Vec<u8>>; // immutable/<name> -> bytes
+/// content that stands for "this name is a directory, not a file" in the model of the restored
+/// directory
+const DIR_SENTINEL: &[u8] = b"\0<<this name is a directory>>\0";
 type DigestList = Vec<(String, String)>;
 
 pub struct World<'a> {
@@ -368,6 +374,8 @@ impl<'a> World<'a> {
             for e in rd.flatten() {
                 if e.path().is_file() {
                     d.insert(e.file_name().to_string_lossy().to_string(), std::fs::read(e.path()).unwrap_or_default());
+                } else if e.path().is_dir() {
+                    d.insert(e.file_name().to_string_lossy().to_string(), DIR_SENTINEL.to_vec());
                 }
             }
         }
@@ -379,7 +387,12 @@ impl<'a> World<'a> {
         let _ = std::fs::remove_dir_all(&imm);
         std::fs::create_dir_all(&imm).expect("immutable dir");
         for (n, b) in &self.dir {
-            std::fs::write(imm.join(n), b).expect("write immutable");
+            if b.as_slice() == DIR_SENTINEL {
+                std::fs::create_dir_all(imm.join(n)).expect("directory in place of a file");
+                std::fs::write(imm.join(n).join("inside"), b"x").expect("write inside");
+            } else {
+                std::fs::write(imm.join(n), b).expect("write immutable");
+            }
         }
     }
 
@@ -452,6 +465,11 @@ impl<'a> World<'a> {
                     && let Some(x) = self.dir.remove(from)
                 {
                     self.dir.insert(to.clone(), x);
+                }
+            }
+            Event::ReplaceByDir { file } => {
+                if self.dir.contains_key(file) {
+                    self.dir.insert(file.clone(), DIR_SENTINEL.to_vec());
                 }
             }
             Event::ListRename { index, to } => {
@@ -635,6 +653,12 @@ impl<'a> World<'a> {
                             missing.push(name)
                         }
                     }
+                    // a directory of that name is not the file
+                    Some(b) if b.as_slice() == DIR_SENTINEL => {
+                        if !allow_missing {
+                            missing.push(name)
+                        }
+                    }
                     Some(b) => {
                         if common::sha256_hex(b) != self.model[&name] {
                             wrong.push(name)
@@ -644,7 +668,9 @@ impl<'a> World<'a> {
             }
         }
         let foreign: Vec<&String> = dir
-            .keys()
+            .iter()
+            .filter(|(_, b)| b.as_slice() != DIR_SENTINEL)
+            .map(|(name, _)| name)
             .filter(|name| !self.model.contains_key(*name) && immutable_like_number(name).is_some_and(|k| k >= lo && k <= hi))
             .collect();
         if !wrong.is_empty() {
@@ -820,6 +846,7 @@ pub fn single_faults(trios: u64) -> Vec<Event> {
         v.push(Event::Truncate { file: f.clone(), permille: 500 });
         v.push(Event::ZeroFill { file: f.clone() });
         v.push(Event::Delete { file: f.clone() });
+        v.push(Event::ReplaceByDir { file: f.clone() });
     }
     for (i, a) in cert.iter().enumerate() {
         for b in &cert[i + 1..] {
@@ -957,7 +984,7 @@ fn gen_fault(rng: &mut Rng, cfg: &Config) -> Event {
     let all: Vec<String> = (0..=beacon + 1).flat_map(common::trio_names).collect();
     let n = cert.len();
     let f = |rng: &mut Rng| rng.pick(&cert).clone();
-    match rng.weighted(&[3, 3, 2, 3, 6, 5, 3, 4, 2, 2, 2, 2, 1, 1, 1, 1, 2, 1]) {
+    match rng.weighted(&[3, 3, 2, 3, 6, 5, 3, 4, 2, 2, 2, 2, 1, 1, 1, 1, 2, 1, 2]) {
         0 => Event::BitFlip { file: f(rng), permille: rng.below(1000) as u32, bit: rng.below(8) as u8 },
         1 => Event::Truncate { file: f(rng), permille: rng.below(1000) as u32 },
         2 => Event::ZeroFill { file: f(rng) },
@@ -1016,7 +1043,8 @@ fn gen_fault(rng: &mut Rng, cfg: &Config) -> Event {
             let alias_prefix = if front { *rng.pick(&["./", "/", ".//", "-/", "+", " "]) } else { *rng.pick(&["x/", "immutable/", "~/", "a/../", "z"]) };
             Event::ListShift { front, alias_prefix: alias_prefix.to_string() }
         }
-        _ => Event::DirFollowList,
+        17 => Event::DirFollowList,
+        _ => Event::ReplaceByDir { file: f(rng) },
     }
 }
 
